@@ -303,6 +303,10 @@ MT_POST = dict(
     none_leaves_the_read="implies(len(result[1]) > 0 and is_none(self.action), rec_same(result[0], old(read)))",
     qualities_in_step="is_none(result[0].qualities) == is_none(old(read.qualities)) and "
                       "implies(not is_none(old(read.qualities)), len(val(result[0].qualities)) == len(result[0].sequence))",
+    name_kept="seq_eq(result[0].name, old(read.name))",
+    input_read_only_uppercased_for_lowercase="seq_eq(read.name, old(read.name)) and is_none(read.qualities) == is_none(old(read.qualities)) and "
+                                             "implies(not is_none(old(read.qualities)), seq_eq(val(read.qualities), val(old(read.qualities)))) and "
+                                             "(is_upper_of(read.sequence, old(read.sequence)) if %s else seq_eq(read.sequence, old(read.sequence)))" % IS("lowercase"),
 )
 
 
@@ -359,7 +363,7 @@ def match_and_trim_once(c):
 
 def stats_install(world):
     from pyvc.calls import Mut
-    world.handlers[("StatsMap", "__getitem__")] = lambda ex, st, m, idx, node, spec: ObjV("StatsView", {"key": idx})
+    world.handlers[("StatsMap", "__getitem__")] = lambda ex, st, m, idx, node, spec: ObjV("StatsView", {"key": idx, "reverse_complemented": fresh("stats.rc", I)})
     world.handlers[("StatsView", "add_match")] = lambda ex, st, v, a, k, n, s: None
 
 
